@@ -268,6 +268,11 @@ func (s *CAStore) addToMemoryCache(
 	}
 
 	data := tmpWriter.Bytes()
+	// The reservation made for this blob is exactly size bytes; an entry of any
+	// other length would unbalance the memory cache accounting when it is removed.
+	if uint64(len(data)) != size {
+		return fmt.Errorf("blob length %d does not match reserved size %d", len(data), size)
+	}
 	// The entry is served under name as soon as it is added, so the buffered
 	// bytes must be verified against name first, as the disk path does.
 	if err := s.verify(bytes.NewReader(data), name); err != nil {
